@@ -237,6 +237,12 @@ def _known_job(seed=0):
     return r
 
 
+# user labels that carry names other parts of valjean reserve for themselves ('index' / 'results' of the Browser), selected on
+RESERVED_NAME_JOBS = [('bylabels', dict(n=2, keys=('k0', 'index'), by3=('index',))),
+                      ('bylabels', dict(n=2, keys=('k0', 'results'), by3=('results', 'k0'))),
+                      ('bylabels', dict(n=3, keys=('index', 'results'), by3=('index', 'results')))]
+
+
 def jobs(tier):
     out = [('known-findings', _known_job, {})]
     t = 20000
@@ -248,7 +254,7 @@ def jobs(tier):
                 ('bylabels', dict(n=3, keys=('k0', 'k1'))), ('bylabels', dict(n=2, keys=('k0', 'k1', '_result'))),
                 ('bylabels', dict(n=2, keys=('k0', 'k1', '_test_name'))),
                 ('bylabels', dict(n=2, keys=('k0', 'k1', 'k2'), by3=('k0', 'k1', 'k2'))),
-                ('bylabels', dict(n=3, keys=('k0', 'k1', 'k2'), by3=('k2', 'k0', 'k1')))]
+                ('bylabels', dict(n=3, keys=('k0', 'k1', 'k2'), by3=('k2', 'k0', 'k1')))] + RESERVED_NAME_JOBS
     else:
         plan = [('tasks', dict(n=i)) for i in range(5)] + \
                [('tests', dict(n=0, maxres=2)), ('tests', dict(n=1, maxres=2)), ('tests', dict(n=2, maxres=2)),
@@ -258,7 +264,7 @@ def jobs(tier):
                 ('bylabels', dict(n=2, keys=('k0', 'k1', 'k2'), by3=('k0', 'k1', 'k2'))),
                 ('bylabels', dict(n=3, keys=('k0', 'k1', 'k2'), by3=('k2', 'k0', 'k1'))),
                 ('bylabels', dict(n=3, keys=('k0', 'k1', 'k2'), by3=('k0', 'k1', 'k2'))),
-                ('bylabels', dict(n=3, keys=('k0', 'k1', 'k2'), by3=('k1', 'k2', 'k0')))]
+                ('bylabels', dict(n=3, keys=('k0', 'k1', 'k2'), by3=('k1', 'k2', 'k0')))] + RESERVED_NAME_JOBS
     for kind, p in plan:
         name = kind + '-' + '-'.join(f'{k}{"+".join(v) if isinstance(v, tuple) else v}' for k, v in p.items())
         if kind == 'bylabels' and p['n'] >= 2 and 'by3' not in p:
